@@ -359,4 +359,163 @@ example : getFunction (gate ti0) fmFns (id% "fm")
 example : getFunction (gate ti0) fmFns (id% "test#t") ⟨[], .verdict rustUnit rustUnit⟩ = .ok := by decide
 example : getFunction (gate ti0) fmFns (id% "test#t") ⟨[], rustUnit⟩ = .retMismatch := by decide
 
+/-! ### T5 — type identity is scope + name
+
+  A type of the script's own (`record i64 { … }`, `enum Option[T] { … }` —
+  `pkg.i64`, `pkg.Option[u32]`) or one the host registered inside a module
+  (`mod foo { type u32 = Val<Pair> }` — `foo.u32`) lives in a non-global scope.
+  Bearing the identifier of a primitive or of a constructor does not make it
+  that primitive or constructor. -/
+
+theorem mapping_nonglobal (ti : TypeInfo) (n : ResolvedName) (args : List RotoTy)
+    (hs : n.scope ≠ .GLOBAL) :
+    mapping ti (.name n args) =
+      match ti.resolve_type_name n with
+      | .runtime _ id => some (.val id)
+      | _ => none := by
+  have h1 : n ≠ nOption := fun h => hs (by rw [h]; rfl)
+  have h2 : n ≠ nList := fun h => hs (by rw [h]; rfl)
+  have h3 : n ≠ nResult := fun h => hs (by rw [h]; rfl)
+  have h4 : n ≠ nVerdict := fun h => hs (by rw [h]; rfl)
+  match args with
+  | [] =>
+    simp only [mapping]
+    split
+    · rename_i h _; exact absurd h hs
+    · rfl
+  | [a] => simp only [mapping, h1, h2, if_false]; split <;> simp_all
+  | [a, b] => simp only [mapping, h3, h4, if_false]; split <;> simp_all
+  | _ :: _ :: _ :: _ => simp only [mapping]; split <;> simp_all
+
+/-- A named type outside the global scope — whatever its identifier and
+    arguments — is retrievable exactly as the `Val<T>` the host registered it
+    as; if it is not a host-registered type, under no Rust type at all. -/
+theorem nonglobal_name_iff (ti : TypeInfo) (hwf : ti.WF) (n : ResolvedName) (args : List RotoTy)
+    (hs : n.scope ≠ .GLOBAL) (r : RustTy) :
+    gate ti r (.name n args) = .ok ↔
+      ∃ nm id, ti.resolve_type_name n = .runtime nm id ∧ r = .val id := by
+  rw [gate_iff ti hwf, mapping_nonglobal ti n args hs]
+  cases hd : ti.resolve_type_name n with
+  | runtime nm id =>
+    simp only [Option.some.injEq, TypeDefinition.runtime.injEq]
+    constructor
+    · rintro rfl; exact ⟨nm, id, ⟨rfl, rfl⟩, rfl⟩
+    · rintro ⟨_, _, ⟨_, rfl⟩, rfl⟩; rfl
+  | _ => simp
+
+/-- a script-declared record or enum is refused under every Rust type, also
+    when it is named like a primitive (`pkg.i64` is not `i64`) or like a
+    constructor (`pkg.Option[u32]` is not `Option<u32>`) -/
+theorem script_type_refused (ti : TypeInfo) (hwf : ti.WF) (n : ResolvedName) (args : List RotoTy)
+    (hs : n.scope ≠ .GLOBAL) (hd : ∀ nm id, ti.resolve_type_name n ≠ .runtime nm id) (r : RustTy) :
+    gate ti r (.name n args) ≠ .ok := by
+  intro h
+  obtain ⟨nm, id, h1, _⟩ := (nonglobal_name_iff ti hwf n args hs r).1 h
+  exact hd nm id h1
+
+/-- a type registered in a runtime module is never retrievable as a leaf or
+    under a constructor, also when it is named like one (`foo.u32` is not
+    `u32`): only as its `Val<T>` -/
+theorem module_type_only_as_val (ti : TypeInfo) (hwf : ti.WF) (n : ResolvedName) (args : List RotoTy)
+    (hs : n.scope ≠ .GLOBAL) (nm : ResolvedName) (id : TypeId)
+    (hd : ti.resolve_type_name n = .runtime nm id) (r : RustTy) :
+    gate ti r (.name n args) = .ok ↔ r = .val id := by
+  rw [nonglobal_name_iff ti hwf n args hs, hd]
+  constructor
+  · rintro ⟨_, _, h, rfl⟩; cases h; rfl
+  · rintro rfl; exact ⟨nm, id, rfl, rfl⟩
+
+/-- a host with `mod foo { type u32 = Val<…> }` (scope 2) next to `Foo`; the
+    script declares `record i64 { … }` and `enum Option[T] { … }` (scope 1) -/
+def ti1 : TypeInfo :=
+  ⟨fun n =>
+    if n = ⟨.other 2, id% "u32"⟩ then .runtime n (.opaque 8)
+    else if n = ⟨.other 1, id% "i64"⟩ then .record
+    else .enum⟩
+
+theorem ti1_wf : ti1.WF := by
+  intro i hi n id
+  have h1 : (⟨.GLOBAL, i⟩ : ResolvedName) ≠ ⟨.other 2, id% "u32"⟩ := by simp
+  have h2 : (⟨.GLOBAL, i⟩ : ResolvedName) ≠ ⟨.other 1, id% "i64"⟩ := by simp
+  simp only [ti1, h1, h2, if_false]
+  simp
+
+example : gate ti1 (.leaf (.prim (id% "i64"))) (.name ⟨.other 1, id% "i64"⟩ []) = .err
+    ∧ gate ti1 (.leaf (.prim (id% "i64"))) (.named (id% "i64") []) = .ok := by decide
+example : gate ti1 (.leaf (.prim (id% "u32"))) (.name ⟨.other 2, id% "u32"⟩ []) = .err
+    ∧ gate ti1 (.val (.opaque 8)) (.name ⟨.other 2, id% "u32"⟩ []) = .ok
+    ∧ gate ti1 (.val (.opaque 8)) (.named (id% "u32") []) = .err := by decide
+example : gate ti1 (.option (.leaf (.prim (id% "u32")))) (.name ⟨.other 1, id% "Option"⟩ [.named (id% "u32") []]) = .err
+    ∧ gate ti1 (.option (.leaf (.prim (id% "u32")))) (.named (id% "Option") [.named (id% "u32") []]) = .ok := by decide
+example : getFunction (gate ti1) [(id% "pkg.first", some ⟨[.name ⟨.other 1, id% "i64"⟩ []], .named (id% "u64") []⟩)]
+    (id% "first") ⟨[.leaf (.prim (id% "i64"))], .leaf (.prim (id% "u64"))⟩ = .argMismatch 1 := by decide
+
+/-- the source compares named types with the derived, field-by-field `==`
+    (scope, identifier, arguments) on every type involved, and `Type::named`
+    builds a name in the GLOBAL scope (both read off the source by the
+    translator; a hand-written `impl PartialEq` or another body is an
+    extraction failure) -/
+theorem type_equality_is_structural :
+    Gen.Gate.derivedEq = [id% "Type", id% "TypeName", id% "ResolvedName", id% "ScopeRef", id% "Identifier"] := by
+  decide
+
+/-! ### T6 — the answer does not depend on what was asked before -/
+
+/-- `get_function` reads `self.functions` and `self.inner` and passes
+    `&mut self.type_info` to the checkers; it writes nothing else (translator:
+    every `self.<field>` it mentions, every `&mut self.<field>`, every method
+    it calls on a field). A memo of earlier verdicts would be a new field or a
+    mutating call, and breaks this. -/
+theorem get_function_state_footprint :
+    (∀ f ∈ Gen.Gate.getFunctionSelfFields, f ∈ [id% "functions", id% "inner", id% "type_info"]) ∧
+    (∀ f ∈ Gen.Gate.getFunctionMutFields, f = id% "type_info") ∧
+    (∀ c ∈ Gen.Gate.getFunctionSelfCalls,
+      c ∈ [(id% "functions", id% "get"), (id% "functions", id% "keys"),
+           (id% "inner", id% "clone"), (id% "inner", id% "get_finalized_function")]) := by
+  decide
+
+theorem run_eq_map (pk : Package) (qs : List Request) :
+    pk.run gate qs = qs.map (fun q => getFunction (gate pk.ti) pk.fns q.name q.f) := by
+  induction qs with
+  | nil => rfl
+  | cons q qs ih => simp only [Package.run, Package.get, List.map_cons, ih]
+
+/-- In every history of requests on one package, the answer to a request is
+    the answer it would get on its own: asking before — the same wrong type,
+    the right type, another function under this type — changes nothing. -/
+theorem history_independent (pk : Package) (before after : List Request) (q : Request) :
+    (pk.run gate (before ++ q :: after))[before.length]? =
+      some (getFunction (gate pk.ti) pk.fns q.name q.f) := by
+  rw [run_eq_map]
+  simp
+
+/-- … so a request is granted at any point of any history iff it names a
+    function that kept its signature and is the image of that signature. -/
+theorem history_get_function_iff (pk : Package) (hwf : pk.ti.WF) (before after : List Request) (q : Request) :
+    (pk.run gate (before ++ q :: after))[before.length]? = some .ok ↔
+      ∃ sig, lookupFn pk.fns (pkgPrefix ++ q.name) = some (some sig) ∧
+        sig.parameter_types.length = q.f.args.length ∧
+        Forall2 (fun t r => mapping pk.ti t = some r) sig.parameter_types q.f.args ∧
+        mapping pk.ti sig.return_type = some q.f.ret := by
+  rw [history_independent, Option.some.injEq, get_function_iff pk.ti hwf]
+
+/-- a refusal is stable: the same request asked twice in one history gets the
+    same answer both times -/
+theorem refusal_is_stable (pk : Package) (a b c : List Request) (q : Request) :
+    (pk.run gate (a ++ q :: b ++ q :: c))[a.length]? =
+      (pk.run gate (a ++ q :: b ++ q :: c))[a.length + 1 + b.length]? := by
+  have h1 := history_independent pk a (b ++ q :: c) q
+  have h2 := history_independent pk (a ++ q :: b) c q
+  simp only [List.append_assoc, List.cons_append, List.length_append, List.length_cons] at h1 h2 ⊢
+  rw [h1]
+  have : a.length + 1 + b.length = a.length + (b.length + 1) := by omega
+  rw [this, h2]
+
+example : (Package.run gate ⟨fns0, ti0⟩
+    [⟨id% "f", ⟨[.leaf (.prim (id% "u16"))], rustUnit⟩⟩,
+     ⟨id% "f", ⟨[.leaf (.prim (id% "u16"))], rustUnit⟩⟩,
+     ⟨id% "f", ⟨[.leaf (.prim (id% "u16")), .option (.leaf (.prim (id% "i16")))], rustUnit⟩⟩,
+     ⟨id% "f", ⟨[.leaf (.prim (id% "u16"))], rustUnit⟩⟩]) =
+    [.incorrectNumberOfArguments 2 1, .incorrectNumberOfArguments 2 1, .ok, .incorrectNumberOfArguments 2 1] := by decide
+
 end RotoV.C04
